@@ -81,6 +81,30 @@ fn main() {
         }
         return;
     }
+    if a[1] == "--smul" {
+        // replay --smul <g1|g2> <mode a|j> <k hex64>: P * k and k * P for P = 3*G in the given representation;
+        // prints the affine coordinates of the result (or INF)
+        use sm9_core::{Fr, Group, G1, G2};
+        let mut kb = [0u8; 32];
+        for i in 0..32 { kb[i] = u8::from_str_radix(&a[4][2 * i..2 * i + 2], 16).expect("hex"); }
+        let k = Fr::from_slice(&kb).expect("scalar");
+        let three = Fr::from_slice(&[3]).unwrap();
+        let hex = |b: &[u8]| b.iter().map(|x| format!("{:02x}", x)).collect::<String>();
+        if a[2] == "g1" {
+            let mut p = G1::one() * three;
+            if a[3] == "a" { p.normalize(); }
+            let (r1, r2) = (p * k, k * p);
+            if r1 != r2 { println!("MISMATCH P*k != k*P"); }
+            if r1.is_zero() { println!("INF"); } else { println!("{}", hex(&r1.to_slice())); }
+        } else {
+            let mut p = G2::one() * three;
+            if a[3] == "a" { p.normalize(); }
+            let (r1, r2) = (p * k, k * p);
+            if r1 != r2 { println!("MISMATCH P*k != k*P"); }
+            if r1.is_zero() { println!("INF"); } else { println!("{}", hex(&r1.to_slice())); }
+        }
+        return;
+    }
     if a[1] == "--wrap" {
         // replay --wrap <pairing|fast|prepared> <modes>: representatives a = normalised, j = un-normalised
         // library value, o = non-canonical identity (X - X); compares with the value on normalised inputs / one
